@@ -173,8 +173,45 @@ def D8():
         c.close(); shutil.rmtree(d)
 
 
+def D9():
+    """incremental backup hard-links the previous backup's stale packs.idx when the new dump has the same size and the
+    same modification second (rsync quick check); objects packed+cleaned between the two backups are lost."""
+    from disk_objectstore import backup_utils as B
+    d, c = fresh()
+    dest = tempfile.mkdtemp(prefix='dosrepro-bk-', dir='/dev/shm')
+    try:
+        old = c.add_objects_to_pack([b'already packed'])[0]
+        k = c.add_object(b'loose at the time of the first backup')
+        mgr = B.BackupManager(dest)
+        mgr.backup_auto_folders(lambda path, prev: B.backup_container(mgr, Container(d), path, prev))
+        first = os.readlink(os.path.join(dest, 'last-backup'))
+        c.pack_all_loose(); c.clean_storage()                   # between the two backups
+        real = B._sqlite_backup
+        def dump(src, dst):                                     # the clock answer: same second as the previous index
+            real(src, dst)
+            t = int(os.stat(os.path.join(dest, first, 'packs.idx')).st_mtime) + 0.5
+            os.utime(dst, (t, t))
+        B._sqlite_backup = dump
+        try:
+            mgr.backup_auto_folders(lambda path, prev: B.backup_container(mgr, Container(d), path, prev))
+        finally:
+            B._sqlite_backup = real
+        second = os.readlink(os.path.join(dest, 'last-backup'))
+        b = Container(os.path.join(dest, second))
+        try:
+            ok = b.get_object_content(k) == b'loose at the time of the first backup'
+            msg = 'read back ok'
+        except Exception as e:
+            ok, msg = False, type(e).__name__
+        same_inode = os.stat(os.path.join(dest, first, 'packs.idx')).st_ino == os.stat(os.path.join(dest, second, 'packs.idx')).st_ino
+        b.close()
+        return not ok, f'second backup: object packed+cleaned between the backups: {msg}; index hard-linked to the first backup: {same_inode}'
+    finally:
+        c.close(); shutil.rmtree(d); shutil.rmtree(dest)
+
+
 if __name__ == '__main__':
-    which = sys.argv[1:] or ['D1', 'D2', 'D3', 'D4', 'D5', 'D6', 'D7', 'D8']
+    which = sys.argv[1:] or ['D1', 'D2', 'D3', 'D4', 'D5', 'D6', 'D7', 'D8', 'D9']
     present = 0
     for name in which:
         bad, msg = globals()[name]()
